@@ -93,7 +93,7 @@ pub fn alphabet(kind: ColorKind) -> Vec<(char, u32)> {
             ('C', 0x00FFFF),
             ('W', 0xFFFFFF),
         ],
-        ColorKind::C32 | ColorKind::User2 => vec![],
+        ColorKind::C32 | ColorKind::User2 | ColorKind::UserA => vec![],
         ColorKind::Rgb332 => rgb_alphabet(5, 3, 2, 3, 0, 2),
         ColorKind::Rgb444 => rgb_alphabet(8, 4, 4, 4, 0, 4),
         ColorKind::Rgb555 => rgb_alphabet(10, 5, 5, 5, 0, 5),
